@@ -240,4 +240,315 @@ Section Compile.
           apply (IH _ _ _ _ _ _ _ (inv_visit _ _ _ _ _ _ _ _ _ _ _ Hinv ltac:(intros Hc; apply zmem_In in Hc; congruence) Enbs Escan) H).
     Qed.
   End Inner.
+
+  (* ---------- the outer while loop ---------- *)
+  Definition out_inv (comps : list (list lentry)) (clo : closures_t) (seen : list Z) : Prop :=
+    seen = rev (concat (map aof comps)) /\ NoDup seen /\ incl seen (keys atoms) /\
+    (forall c, In c comps -> c <> [] /\ lin clo [] c) /\
+    (forall c n m, In c comps -> In n (aof c) -> In m (keys (adj_get bonds n)) -> In m (aof c)) /\
+    (forall x, ~ In x seen -> clo_get clo x = []).
+
+  Lemma cq_outer_unfold iter comps (clo : closures_t) seen :
+    cq_outer atoms bonds iter comps clo seen =
+    if (length seen <? length atoms)%nat then
+      match iter with
+      | [] => Err StopIteration
+      | x :: iter' =>
+          if zmem x seen then cq_outer atoms bonds iter' comps clo seen
+          else
+            match zget bonds x with
+            | None => Err KeyError
+            | Some nbs =>
+                match cq_init atoms x (rev nbs) [] with
+                | Err e => Err e
+                | Ok stack =>
+                    match zget atoms x with
+                    | None => Err KeyError
+                    | Some a0 =>
+                        match cq_dfs (S (edge_count bonds)) atoms bonds stack [(x, None, a0, None)] clo (x :: seen) with
+                        | Err e => Err e
+                        | Ok (order, clo', seen') => cq_outer atoms bonds iter' (comps ++ [order]) clo' seen'
+                        end
+                    end
+                end
+            end
+      end
+    else Ok (comps, clo).
+  Proof. destruct iter; reflexivity. Qed.
+
+  Lemma NoDup_app_disj {T} (a c : list T) x : NoDup (a ++ c) -> In x a -> In x c -> False.
+  Proof.
+    induction a as [|y a IH]; intros H Ha Hc; [destruct Ha|]. cbn in H. inversion H as [|? ? Hy Hn]; subst.
+    destruct Ha as [->|Ha]; [apply Hy; apply in_or_app; right; exact Hc | apply IH; assumption].
+  Qed.
+
+  Lemma seen_closed comps clo seen : out_inv comps clo seen ->
+    forall x m, In x seen -> In m (keys (adj_get bonds x)) -> In m seen.
+  Proof.
+    intros (O1 & _ & _ & _ & O5 & _) x m Hx Hm. rewrite O1 in Hx |- *. apply in_rev in Hx. apply -> in_rev.
+    apply in_concat in Hx. destruct Hx as (l & Hl & Hx). apply in_map_iff in Hl. destruct Hl as (c & <- & Hc).
+    apply in_concat. exists (aof c). split; [apply in_map; exact Hc | apply (O5 c x m); assumption].
+  Qed.
+
+  Lemma out_inv_step comps clo seen x nbs stack a0 order clo1 seen1 :
+    out_inv comps clo seen -> In x (keys atoms) -> ~ In x seen ->
+    zget bonds x = Some nbs -> cq_init atoms x (rev nbs) [] = Ok stack -> zget atoms x = Some a0 ->
+    cq_dfs (S (edge_count bonds)) atoms bonds stack [(x, None, a0, None)] clo (x :: seen) = Ok (order, clo1, seen1) ->
+    out_inv (comps ++ [order]) clo1 seen1.
+  Proof.
+    intros Hinv Hx Hs Hnbs Hinit Ha Hdfs.
+    pose proof (seen_closed _ _ _ Hinv) as Hclosed.
+    destruct Hinv as (O1 & O2 & O3 & O4 & O5 & O6).
+    pose proof (adj_get_zget _ _ Hnbs) as Eadj.
+    destruct (cq_init_spec _ _ _ _ Hinit) as (pushed & -> & Q1 & Q2). rewrite app_nil_r in Hdfs.
+    assert (Hinv0 : dfs_inv seen clo pushed [(x, None, a0, None)] clo (x :: seen)).
+    { unfold dfs_inv. split; [reflexivity|]. split; [constructor; assumption|]. split; [discriminate|]. split; [|split; [|split; [|split; [|split]]]].
+      - cbn [lin_ok]. split; [intros []|]. split; [exact Ha|]. split; [split; reflexivity|].
+        rewrite (O6 x Hs). split; [constructor|]. split; [|exact I]. intros m bd. split; [intros [] | intros ([] & _)].
+      - intros n back a b Hin. destruct (Q1 _ Hin) as (n1 & bond & a1 & E & Hnb & Ha1). injection E as -> -> -> ->.
+        exists x, bond. split; [reflexivity|]. split; [reflexivity|]. split; [left; reflexivity|]. split; [|exact Ha1].
+        apply bond_In. rewrite Eadj. apply in_rev. exact Hnb.
+      - intros y Hy. apply O6. intros H. apply Hy. right. exact H.
+      - intros; reflexivity.
+      - intros y m [<-|[]] Hm. cbn [fst4] in Hm. destruct (In_key_zget _ _ Hm) as [bd Hbd]. apply zget_In in Hbd.
+        rewrite Eadj in Hbd. apply in_rev in Hbd. destruct (Q2 _ _ Hbd) as [a1 Ha1]. right. eauto.
+      - intros y [<-|Hy]; [exact Hx | apply O3; exact Hy]. }
+    pose proof (cq_dfs_inv seen clo Hclosed _ _ _ _ _ _ _ _ Hinv0 Hdfs) as (I1 & I2 & I3 & I4 & I5 & I6 & I7 & I8 & I9).
+    unfold out_inv. split; [|split; [exact I2|split; [exact I9|split; [|split]]]].
+    - rewrite map_app, concat_app. cbn [map concat]. rewrite app_nil_r, rev_app_distr, <- O1. exact I1.
+    - intros c Hc. apply in_app_or in Hc. destruct Hc as [Hc|[<-|[]]]; [|split; assumption].
+      destruct (O4 c Hc) as [Hne Hl]. split; [exact Hne|]. apply (lin_ok_ext clo); [|exact Hl].
+      intros y Hy. apply I7. rewrite O1. apply -> in_rev. apply in_concat. exists (aof c). split; [apply in_map; exact Hc | exact Hy].
+    - intros c n m Hc Hn Hm. apply in_app_or in Hc. destruct Hc as [Hc|[<-|[]]]; [apply (O5 c n m); assumption|].
+      destruct (I8 n m Hn Hm) as [H|(? & ? & [])]. rewrite I1 in H. apply in_app_or in H. destruct H as [H|H]; [apply in_rev; exact H|].
+      exfalso. rewrite I1 in I2. apply (NoDup_app_disj _ _ n I2); [apply -> in_rev; exact Hn|].
+      apply (Hclosed m n H). apply adj_sym. exact Hm.
+    - exact I6.
+  Qed.
+
+  Lemma cq_outer_inv : forall iter comps clo seen comps' clo',
+    incl iter (keys atoms) -> out_inv comps clo seen ->
+    cq_outer atoms bonds iter comps clo seen = Ok (comps', clo') ->
+    out_inv comps' clo' (rev (concat (map aof comps'))) /\ (length atoms <= length (concat (map aof comps')))%nat.
+  Proof.
+    induction iter as [|x iter IH]; intros comps clo seen comps' clo' Hit Hinv H; rewrite cq_outer_unfold in H.
+    - destruct (Nat.ltb_spec (length seen) (length atoms)); [discriminate|]. injection H as <- <-.
+      destruct Hinv as (O1 & O2). split; [rewrite <- O1; split; assumption|]. rewrite O1, rev_length in H0. exact H0.
+    - destruct (Nat.ltb_spec (length seen) (length atoms)).
+      2:{ injection H as <- <-. destruct Hinv as (O1 & O2). split; [rewrite <- O1; split; assumption|]. rewrite O1, rev_length in H0. exact H0. }
+      assert (Hit' : incl iter (keys atoms)) by (intros y Hy; apply Hit; right; exact Hy).
+      destruct (zmem x seen) eqn:Es; [apply (IH _ _ _ _ _ Hit' Hinv H)|].
+      destruct (zget bonds x) as [nbs|] eqn:Enbs; [|discriminate].
+      destruct (cq_init atoms x (rev nbs) []) as [stack|] eqn:Einit; [|discriminate].
+      destruct (zget atoms x) as [a0|] eqn:Ea; [|discriminate].
+      destruct (cq_dfs (S (edge_count bonds)) atoms bonds stack [(x, None, a0, None)] clo (x :: seen)) as [[[order clo1] seen1]|] eqn:Edfs; [|discriminate].
+      apply (IH _ _ _ _ _ Hit') in H; [exact H|].
+      apply (out_inv_step comps clo seen x nbs stack a0); try assumption.
+      + apply Hit. left. reflexivity.
+      + intros Hc. apply zmem_In in Hc. congruence.
+  Qed.
+
+  (* every atom lies in exactly one linear order, every order is a correct linearisation of a set of atoms that no bond
+     leaves (i.e. of a connected component: each entry hangs on an earlier one), closures are the remaining bonds *)
+  Theorem compile_query_spec : forall comps clo,
+    compile_query atoms bonds = Ok (comps, clo) -> compiled_ok atoms bonds comps clo.
+  Proof.
+    intros comps clo H. unfold compile_query in H.
+    assert (Hinv0 : out_inv [] [] []).
+    { unfold out_inv. split; [reflexivity|]. split; [constructor|]. split; [intros ? []|]. split; [intros ? []|]. split; [intros ? ? ? []|].
+      intros; reflexivity. }
+    destruct (cq_outer_inv _ _ _ _ _ _ (incl_refl _) Hinv0 H) as [(O1 & O2 & O3 & O4 & O5 & O6) Hlen].
+    unfold compiled_ok. split; [|split; [exact O4 | exact O5]].
+    apply Permutation_trans with (rev (concat (map aof comps))); [apply Permutation_rev|].
+    apply NoDup_Permutation; [exact O2 | apply wf |]. intros x. split; [apply O3|].
+    apply NoDup_length_incl; [exact O2 | | exact O3].
+    rewrite rev_length. unfold keys. rewrite map_length. exact Hlen.
+  Qed.
 End Compile.
+
+Lemma split_unique {T} (y : T) : forall u v t1 t2, NoDup (u ++ y :: t1) -> u ++ y :: t1 = v ++ y :: t2 -> u = v.
+Proof.
+  induction u as [|a u IH]; intros v t1 t2 Hn E.
+  - destruct v as [|b v]; [reflexivity|]. cbn in E. injection E as <- E. exfalso. cbn in Hn. inversion Hn as [|? ? Hni _]; subst.
+    apply Hni. apply in_or_app. right. left. reflexivity.
+  - destruct v as [|b v].
+    + cbn in E. injection E as -> E. exfalso. cbn in Hn. inversion Hn as [|? ? Hni _]; subst. apply Hni. apply in_or_app. right. left. reflexivity.
+    + cbn in E. injection E as -> E. f_equal. cbn in Hn. inversion Hn; subst. apply (IH v t1 t2); assumption.
+Qed.
+
+Lemma list_before_asym {T} (L : list T) x y a1 a2 b1 b2 :
+  NoDup L -> L = a1 ++ x :: a2 -> In y a1 -> L = b1 ++ y :: b2 -> In x b1 -> False.
+Proof.
+  intros Hn E1 Hy E2 Hx. apply in_split in Hy. destruct Hy as (p1 & p2 & ->).
+  assert (E3 : L = p1 ++ y :: (p2 ++ x :: a2)) by (rewrite E1, <- app_assoc; reflexivity).
+  assert (b1 = p1) by (symmetry; apply (split_unique y p1 b1 (p2 ++ x :: a2) b2); [rewrite <- E3; exact Hn | rewrite <- E3; exact E2]).
+  subst b1. rewrite E3 in Hn. apply (NoDup_app_disj _ _ x Hn Hx). right. apply in_or_app. right. left. reflexivity.
+Qed.
+
+(* ---------- every pattern bond is a tree edge or a closure, exactly once ---------- *)
+Section Bonds.
+  Variables QA QB : Type.
+  Variable atoms : list (Z * QA).
+  Variable bonds : list (Z * list (Z * QB)).
+  Variable comps : list (list (lentry QA QB)).
+  Variable clo : closures_t QB.
+  Hypothesis wf : wf_adj atoms bonds.
+  Hypothesis ok : compiled_ok atoms bonds comps clo.
+
+  Notation aof := (map (@fst4 QA QB)).
+
+  (* x was reached from y: the entry of x names y as `back` *)
+  Definition tree_edge (x y : Z) : Prop := exists c a b, In c comps /\ In (x, Some y, a, b) c.
+  (* y is listed in closures[x] *)
+  Definition closure_edge (x y : Z) : Prop := In y (keys (clo_get clo x)).
+  (* y comes before x in the same linear order *)
+  Definition before (y x : Z) : Prop := exists c l1 e l2, In c comps /\ c = l1 ++ e :: l2 /\ fst4 e = x /\ In y (aof l1).
+
+  Lemma comps_NoDup : NoDup (concat (map aof comps)).
+  Proof. destruct ok as (P & _). apply (Permutation_NoDup (Permutation_sym P)). apply wf. Qed.
+
+  Lemma concat_NoDup_unique {S T} (f : S -> list T) : forall (ls : list S) a b x,
+    NoDup (concat (map f ls)) -> In a ls -> In b ls -> In x (f a) -> In x (f b) -> a = b.
+  Proof.
+    induction ls as [|l r IH]; intros a b x Hn Ha Hb Hxa Hxb; [destruct Ha|]. cbn in Hn.
+    assert (Hdis : forall c, In c r -> In x (f l) -> In x (f c) -> False).
+    { intros c Hc H1 H2. apply (NoDup_app_disj _ _ x Hn H1). apply in_concat. exists (f c). split; [apply in_map; exact Hc | exact H2]. }
+    destruct Ha as [<-|Ha], Hb as [<-|Hb].
+    - reflexivity.
+    - exfalso. apply (Hdis b Hb Hxa Hxb).
+    - exfalso. apply (Hdis a Ha Hxb Hxa).
+    - apply (IH a b x); try assumption. clear -Hn. induction (f l) as [|y t IHt]; [exact Hn|]. cbn in Hn. inversion Hn; subst. apply IHt. assumption.
+  Qed.
+
+  Lemma same_comp c c' x : In c comps -> In c' comps -> In x (aof c) -> In x (aof c') -> c = c'.
+  Proof. intros. apply (concat_NoDup_unique aof comps c c' x comps_NoDup); assumption. Qed.
+
+  Lemma comp_NoDup c : In c comps -> NoDup (aof c).
+  Proof.
+    intros Hc. pose proof comps_NoDup as Hn. clear -Hc Hn. induction comps as [|l r IH]; [destruct Hc|]. cbn in Hn.
+    destruct Hc as [<-|Hc]; [apply (NoDup_app_l _ _ Hn)|]. apply IH; [exact Hc|].
+    clear -Hn. induction (aof l) as [|y t IHt]; [exact Hn|]. cbn in Hn. inversion Hn; subst. apply IHt. assumption.
+  Qed.
+
+  (* the entry at a split point, relative to the atoms before it *)
+  Lemma entry_at c l1 s_n back a b l2 : In c comps -> c = l1 ++ (s_n, back, a, b) :: l2 ->
+    ~ In s_n (aof l1) /\
+    (forall bk, back = Some bk -> In bk (aof l1) /\ exists bd, bond_get bonds bk s_n = Some bd) /\
+    (forall m bd, In (m, bd) (clo_get clo s_n) <-> In m (aof l1) /\ back <> Some m /\ bond_get bonds s_n m = Some bd).
+  Proof.
+    intros Hc E. destruct ok as (_ & Hl & _). destruct (Hl c Hc) as [_ Hlin]. rewrite E in Hlin.
+    apply lin_ok_app_inv in Hlin. destruct Hlin as [_ Hlin]. cbn [app lin_ok] in Hlin.
+    destruct Hlin as (H1 & _ & H3 & _ & H5 & _). split; [exact H1|]. split; [|exact H5].
+    intros bk ->. destruct (aof l1) eqn:El.
+    - destruct H3 as [H3 _]. discriminate.
+    - destruct H3 as (bk' & bd & Eb & _ & Hin & Hb). injection Eb as <-. split; [exact Hin | eauto].
+  Qed.
+
+  Lemma in_split_entry c x : In x (aof c) -> exists l1 e l2, c = l1 ++ e :: l2 /\ fst4 e = x.
+  Proof.
+    intros H. apply in_map_iff in H. destruct H as (e & E & He). apply in_split in He. destruct He as (l1 & l2 & ->). eauto.
+  Qed.
+
+  Lemma tree_before x y : tree_edge x y -> before y x.
+  Proof.
+    intros (c & a & b & Hc & He). apply in_split in He. destruct He as (l1 & l2 & E).
+    destruct (entry_at c l1 x (Some y) a b l2 Hc E) as (_ & H2 & _). destruct (H2 y eq_refl) as [Hin _].
+    exists c, l1, (x, Some y, a, b), l2. auto.
+  Qed.
+
+  Lemma closure_before x y : In x (keys atoms) -> closure_edge x y -> before y x.
+  Proof.
+    intros Hx Hcl. destruct ok as (P & _). apply (Permutation_in _ (Permutation_sym P)) in Hx.
+    apply in_concat in Hx. destruct Hx as (l & Hl & Hx). apply in_map_iff in Hl. destruct Hl as (c & <- & Hc).
+    destruct (in_split_entry c x Hx) as (l1 & [[[s_n back] a] b] & l2 & E & Ee). cbn in Ee. subst s_n.
+    destruct (entry_at c l1 x back a b l2 Hc E) as (_ & _ & H3).
+    unfold closure_edge in Hcl. apply in_map_iff in Hcl. destruct Hcl as ([m bd] & Em & Hin). cbn in Em. subst m.
+    apply H3 in Hin. exists c, l1, (x, back, a, b), l2. repeat split; try assumption. apply Hin.
+  Qed.
+
+  Lemma before_asym x y : before y x -> before x y -> False.
+  Proof.
+    intros (c & l1 & e & l2 & Hc & E & Ee & Hy) (c' & m1 & e' & m2 & Hc' & E' & Ee' & Hx).
+    assert (c = c').
+    { apply (same_comp c c' x Hc Hc'); [rewrite E, map_app; apply in_or_app; right; left; exact Ee |
+                                         rewrite E', map_app; apply in_or_app; left; exact Hx]. }
+    rewrite <- H in E'. clear H Hc'. pose proof (comp_NoDup c Hc) as Hn.
+    apply (list_before_asym (aof c) x y (aof l1) (aof l2) (aof m1) (aof m2) Hn); try assumption.
+    - rewrite E, map_app. cbn [map]. rewrite Ee. reflexivity.
+    - rewrite E', map_app. cbn [map]. rewrite Ee'. reflexivity.
+  Qed.
+
+  (* x and y are bonded: exactly one of the four ways of recording the bond is used *)
+  Theorem bond_recorded_once : forall x y, In y (keys (adj_get bonds x)) ->
+    let A := tree_edge x y in let B := tree_edge y x in let C := closure_edge x y in let D := closure_edge y x in
+    (A \/ B \/ C \/ D) /\ ~ (A /\ B) /\ ~ (A /\ C) /\ ~ (A /\ D) /\ ~ (B /\ C) /\ ~ (B /\ D) /\ ~ (C /\ D).
+  Proof.
+    intros x y Hxy.
+    assert (Hyx : In x (keys (adj_get bonds y))) by (apply (adj_sym _ _ _ _ wf); exact Hxy).
+    destruct wf as (_ & _ & _ & _ & Hloop & Hsym).
+    destruct (Hloop x y Hxy) as [Hne Hya]. destruct (Hloop y x Hyx) as [_ Hxa].
+    (* at most one: each way puts one atom before the other; a tree edge and a closure at the same atom exclude each other *)
+    assert (HAC : forall u v, tree_edge u v -> closure_edge u v -> False).
+    { intros u v (c & a & b & Hc & He) Hcl. apply in_split in He. destruct He as (l1 & l2 & E).
+      destruct (entry_at c l1 u (Some v) a b l2 Hc E) as (_ & _ & H3).
+      unfold closure_edge in Hcl. apply in_map_iff in Hcl. destruct Hcl as ([m bd] & Em & Hin). cbn in Em. subst m.
+      apply H3 in Hin. destruct Hin as (_ & Hb & _). apply Hb. reflexivity. }
+    cbv zeta. split.
+    - (* at least one *)
+      destruct ok as (P & _ & Hcl). pose proof Hxa as Hx. apply (Permutation_in _ (Permutation_sym P)) in Hx.
+      apply in_concat in Hx. destruct Hx as (l & Hl & Hx). apply in_map_iff in Hl. destruct Hl as (c & <- & Hc).
+      pose proof (Hcl c x y Hc Hx Hxy) as Hy.
+      destruct (in_split_entry c x Hx) as (l1 & [[[sx bx] ax] bdx] & l2 & E & Ee). cbn in Ee. subst sx.
+      rewrite E, map_app in Hy. cbn [map fst4] in Hy. apply in_app_or in Hy. destruct Hy as [Hy|[Hy|Hy]]; [|congruence|].
+      + (* y before x *)
+        destruct (entry_at c l1 x bx ax bdx l2 Hc E) as (_ & _ & H3).
+        destruct (In_key_zget _ _ Hxy) as [bd Hbd]. fold (bond_get bonds x y) in Hbd.
+        destruct bx as [bk|].
+        * destruct (Z.eq_dec bk y) as [->|Hk].
+          -- left. exists c, ax, bdx. split; [exact Hc|]. rewrite E. apply in_or_app. right. left. reflexivity.
+          -- right. right. left. unfold closure_edge. apply (in_map fst _ (y, bd)). apply H3. repeat split; [exact Hy | congruence | exact Hbd].
+        * right. right. left. unfold closure_edge. apply (in_map fst _ (y, bd)). apply H3. repeat split; [exact Hy | discriminate | exact Hbd].
+      + (* x before y *)
+        apply in_map_iff in Hy. destruct Hy as ([[[sy by_] ay] bdy] & Ey & Hy). cbn in Ey. subst sy.
+        apply in_split in Hy. destruct Hy as (p1 & p2 & ->).
+        assert (E2 : c = (l1 ++ (x, bx, ax, bdx) :: p1) ++ (y, by_, ay, bdy) :: p2) by (rewrite E, <- app_assoc; reflexivity).
+        destruct (entry_at c _ y by_ ay bdy p2 Hc E2) as (_ & _ & H3).
+        assert (Hxin : In x (aof (l1 ++ (x, bx, ax, bdx) :: p1))) by (rewrite map_app; apply in_or_app; right; left; reflexivity).
+        destruct (In_key_zget _ _ Hyx) as [bd Hbd]. fold (bond_get bonds y x) in Hbd.
+        destruct by_ as [bk|].
+        * destruct (Z.eq_dec bk x) as [->|Hk].
+          -- right. left. exists c, ay, bdy. split; [exact Hc|]. rewrite E2. apply in_or_app. right. left. reflexivity.
+          -- right. right. right. unfold closure_edge. apply (in_map fst _ (x, bd)). apply H3. repeat split; [exact Hxin | congruence | exact Hbd].
+        * right. right. right. unfold closure_edge. apply (in_map fst _ (x, bd)). apply H3. repeat split; [exact Hxin | discriminate | exact Hbd].
+    - repeat split; intros [H1 H2].
+      + apply (before_asym x y (tree_before _ _ H1) (tree_before _ _ H2)).
+      + apply (HAC x y H1 H2).
+      + apply (before_asym x y (tree_before _ _ H1) (closure_before _ _ Hya H2)).
+      + apply (before_asym y x (tree_before _ _ H1) (closure_before _ _ Hxa H2)).
+      + apply (HAC y x H1 H2).
+      + apply (before_asym x y (closure_before _ _ Hxa H1) (closure_before _ _ Hya H2)).
+  Qed.
+
+  (* nothing else is recorded: tree edges and closures are bonds of the pattern, and closures[x] lists no atom twice *)
+  Theorem recorded_is_bond : forall x y,
+    (tree_edge x y -> In y (keys (adj_get bonds x))) /\
+    (In x (keys atoms) -> closure_edge x y -> In y (keys (adj_get bonds x))) /\
+    (In x (keys atoms) -> NoDup (keys (clo_get clo x))).
+  Proof.
+    intros x y. split; [|split].
+    - intros (c & a & b & Hc & He). apply in_split in He. destruct He as (l1 & l2 & E).
+      destruct (entry_at c l1 x (Some y) a b l2 Hc E) as (_ & H2 & _). destruct (H2 y eq_refl) as [_ [bd Hbd]].
+      apply (adj_sym _ _ _ _ wf). unfold bond_get in Hbd. apply zget_Some_key in Hbd. exact Hbd.
+    - intros Hx Hcl. destruct ok as (P & _). apply (Permutation_in _ (Permutation_sym P)) in Hx.
+      apply in_concat in Hx. destruct Hx as (l & Hl & Hx). apply in_map_iff in Hl. destruct Hl as (c & <- & Hc).
+      destruct (in_split_entry c x Hx) as (l1 & [[[s_n back] a] b] & l2 & E & Ee). cbn in Ee. subst s_n.
+      destruct (entry_at c l1 x back a b l2 Hc E) as (_ & _ & H3).
+      unfold closure_edge in Hcl. apply in_map_iff in Hcl. destruct Hcl as ([m bd] & Em & Hin). cbn in Em. subst m.
+      apply H3 in Hin. destruct Hin as (_ & _ & Hb). unfold bond_get in Hb. apply zget_Some_key in Hb. exact Hb.
+    - intros Hx. destruct ok as (P & Hl & _). apply (Permutation_in _ (Permutation_sym P)) in Hx.
+      apply in_concat in Hx. destruct Hx as (l & Hl' & Hx). apply in_map_iff in Hl'. destruct Hl' as (c & <- & Hc).
+      destruct (in_split_entry c x Hx) as (l1 & [[[s_n back] a] b] & l2 & E & Ee). cbn in Ee. subst s_n.
+      destruct (Hl c Hc) as [_ Hlin]. rewrite E in Hlin. apply lin_ok_app_inv in Hlin. destruct Hlin as [_ Hlin].
+      cbn [app lin_ok] in Hlin. apply Hlin.
+  Qed.
+End Bonds.
